@@ -24,14 +24,15 @@ def slots(base, n, t):
     _, sz, lt = ELEM[t]
     return [(base, i * sz, sz, lt) for i in range(n)]
 
-def gen(t):
+def gen(t, only=None, tuname=None):
+    """only='Frustum': the Frustum twins alone (C16 runs the same twin rules on them under its own rule name)"""
     E, sz, lt = ELEM[t]
-    tu = TU('c07_' + t, header=FRUSTUM_HDR)
+    tu = TU(tuname or ('c07_' + t), header=FRUSTUM_HDR)
     pairs = []   # (id, checked wrapper, unchecked wrapper, outs, ret type, sentinel kind, exc type, extra wrappers for flag equality)
     def add(name, params, body):
         tu.add('w_' + name, params, body)
         return 'w_' + name
-    for n in (2, 3, 4):
+    for n in (2, 3, 4) if only is None else ():
         V = 'Vec%d<%s>' % (n, E)
         a = add('V%d_normalize' % n, '%s& v' % V, 'v.normalize();')
         b = add('V%d_normalizeExc' % n, '%s& v' % V, 'v.normalizeExc();')
@@ -43,16 +44,17 @@ def gen(t):
         c = add('V%d_normalizedNonNull' % n, '%s& o, const %s& v' % (V, V), 'o = v.normalizedNonNull();')
         pairs.append(dict(id='Vec%d<%s>::normalizedExc/normalized' % (n, E), C=b, U=a, outs=slots('a0', n, t), sentinel=('zero', n), exc=DOMAIN))
         pairs.append(dict(id='Vec%d<%s>::normalizedExc/normalizedNonNull' % (n, E), C=b, U=c, outs=slots('a0', n, t), sentinel=None, exc=DOMAIN))
-    a = add('V3_from_V4', 'Vec3<%s>& o, const Vec4<%s>& v' % (E, E), 'o = Vec3<%s>(v);' % E)
-    b = add('V3_from_V4_exc', 'Vec3<%s>& o, const Vec4<%s>& v' % (E, E), 'o = Vec3<%s>(v, INF_EXCEPTION);' % E)
-    pairs.append(dict(id='Vec3<%s>(Vec4,InfException)/Vec3(Vec4)' % E, C=b, U=a, outs=slots('a0', 3, t), sentinel=None, exc=DOMAIN))
+    if only is None:
+        a = add('V3_from_V4', 'Vec3<%s>& o, const Vec4<%s>& v' % (E, E), 'o = Vec3<%s>(v);' % E)
+        b = add('V3_from_V4_exc', 'Vec3<%s>& o, const Vec4<%s>& v' % (E, E), 'o = Vec3<%s>(v, INF_EXCEPTION);' % E)
+        pairs.append(dict(id='Vec3<%s>(Vec4,InfException)/Vec3(Vec4)' % E, C=b, U=a, outs=slots('a0', 3, t), sentinel=None, exc=DOMAIN))
     # converting forms (source element type differs from the destination's): still one checked / unchecked pair
     E2 = {'float': 'double', 'double': 'float'}.get(E)
-    if E2:
+    if E2 and only is None:
         a = add('V3_from_V4x', 'Vec3<%s>& o, const Vec4<%s>& v' % (E, E2), 'o = Vec3<%s>(v);' % E)
         b = add('V3_from_V4x_exc', 'Vec3<%s>& o, const Vec4<%s>& v' % (E, E2), 'o = Vec3<%s>(v, INF_EXCEPTION);' % E)
         pairs.append(dict(id='Vec3<%s>(Vec4<%s>,InfException)/Vec3(Vec4<%s>)' % (E, E2, E2), C=b, U=a, outs=slots('a0', 3, t), sentinel=None, exc=DOMAIN))
-    for d in (2, 3, 4):
+    for d in (2, 3, 4) if only is None else ():
         M = 'Matrix%d%d<%s>' % (d, d, E)
         fns = ['inverse', 'invert'] + (['gjInverse', 'gjInvert'] if d > 2 else [])
         for f in fns:
@@ -84,6 +86,8 @@ def gen(t):
     _, fsz, flt = ELEM[t]
     fouts = [('a0', 8 + i * fsz, fsz, flt) for i in range(6)] + [('a0', 8 + 6 * fsz, 1, 'i8')]
     fr('set', '%s& f, const %s& n, const %s& fa, const %s& fx, const %s& fy, const %s& as' % (F, E, E, E, E, E), 'f.set(n, fa, fx, fy, as);', 'f.setExc(n, fa, fx, fy, as);', fouts)
+    if only == 'Frustum':
+        return tu, pairs
     # exc-flag functions of ImathMatrixAlgo.h (3-D and 2-D)
     def ex(name, params, call, outs, ret, sentinel='retfalse'):
         c = add('X_%s_exc1' % name, params, call % 'true')
@@ -147,6 +151,284 @@ def P_all_conds(n):
     from engine import poly as P_
     return set(P_.all_conds(n))
 
+def _ev3(x, env, memo):
+    """three-valued evaluation: a number / bool, or None when the value depends on something not fixed by env"""
+    if x.id in memo: return memo[x.id]
+    r = None
+    if x.id in env: r = env[x.id]
+    elif x is T.TRUE: r = True
+    elif x is T.FALSE: r = False
+    elif x.op == 'const':
+        v = T.const_value(x)
+        r = None if isinstance(v, str) else v
+    else:
+        a = [_ev3(y, env, memo) for y in x.args]
+        op = x.op
+        if op in ('fpext', 'fptrunc', 'sitofp', 'zext'): r = a[0]
+        elif op == 'fneg': r = None if a[0] is None else -a[0]
+        elif op == 'absi' or (op == 'call' and 'fabs' in str(x.attr)): r = None if a[0] is None else abs(a[0])
+        elif op in ('fmul', 'fadd', 'fsub') and None not in a:
+            r = a[0] * a[1] if op == 'fmul' else a[0] + a[1] if op == 'fadd' else a[0] - a[1]
+        elif op == 'fmul' and any(z is not None and z == 0 for z in a) and env.get('finite'):
+            r = 0.0                                 # 0 * (any finite value)
+        elif op == 'fdiv' and None not in a:
+            import math
+            r = a[0] / a[1] if a[1] != 0 else (math.nan if (a[0] == 0 or a[0] != a[0]) else math.copysign(math.inf, a[0]) * math.copysign(1.0, a[1]))
+        elif op == 'call' and None not in a and str(x.attr) in ('sqrt', 'sin', 'cos', 'acos', 'asin', 'atan2', 'tan', 'atan'):
+            import math
+            try: r = getattr(math, str(x.attr))(*a)
+            except (ValueError, OverflowError): r = math.nan
+        elif op == 'fcmp' and None not in a and not isinstance(a[0], bool) and not isinstance(a[1], bool):
+            f = {'olt': lambda p, q: p < q, 'ole': lambda p, q: p <= q, 'ogt': lambda p, q: p > q, 'oge': lambda p, q: p >= q,
+                 'oeq': lambda p, q: p == q, 'une': lambda p, q: p != q, 'one': lambda p, q: p != q, 'ult': lambda p, q: p < q,
+                 'ule': lambda p, q: p <= q, 'ugt': lambda p, q: p > q, 'uge': lambda p, q: p >= q, 'ueq': lambda p, q: p == q}.get(x.attr)
+            r = f(a[0], a[1]) if f else None
+        elif op == 'not': r = None if a[0] is None else (not a[0])
+        elif op == 'and' and x.ty == 'i1':
+            r = False if (a[0] is False or a[1] is False) else (True if (a[0] is True and a[1] is True) else None)
+        elif op == 'or' and x.ty == 'i1':
+            r = True if (a[0] is True or a[1] is True) else (False if (a[0] is False and a[1] is False) else None)
+        elif op == 'ite':
+            if a[0] is True: r = a[1]
+            elif a[0] is False: r = a[2]
+            elif a[1] is not None and a[1] == a[2] and type(a[1]) == type(a[2]): r = a[1]
+    memo[x.id] = r
+    return r
+
+def guard_points(tc, JU, t):
+    from .common import lift_all
+    def core(n):
+        while n.op in ('fneg', 'sitofp', 'fpext', 'fptrunc'): n = n.args[0]
+        return n
+    tiny, huge = (1e-30, 1e30) if t == 'f' else (1e-300, 1e300)
+    big = 1e38 if t == 'f' else 1e308
+    SAFE = [(0.5, 1.0), (-0.5, 1.0), (0.5, -1.0), (2.0, 1.0), (-2.0, huge), (0.5, 0.0), (1e-3, 1e3), (0.75, big), (1.0, 1.0), (tiny, tiny), (huge, huge), (huge, 1.0), (3.0, big)]
+    OVER = [(tiny, huge), (-tiny, huge), (tiny, -huge), (0.0, 1.0), (0.0, -huge), (0.25, 3 * big)]
+    npts = 0
+    # divisors that the throw condition compares by magnitude (a divisor only tested against zero claims no overflow guard)
+    magn = set(); st = [tc]; seen = set()
+    while st:
+        x = st.pop()
+        if x.id in seen: continue
+        seen.add(x.id); st.extend(x.args)
+        if x.op == 'absi' or (x.op == 'call' and 'fabs' in str(x.attr)): magn.add(core(x.args[0]).id)
+        if x.op == 'fcmp' and x.attr in ('olt', 'ole', 'ogt', 'oge'):
+            for z in x.args:
+                if z.op != 'const': magn.add(core(z).id)
+    for lits, leaf in T.leaves(lift_all(JU, [400000]), 100000):
+        if leaf.op != 'tuple': continue
+        tcr = T.resolve(tc, dict(lits))
+        quots = {}; st = list(leaf.args); seen = set()
+        while st:
+            x = st.pop()
+            if x.id in seen: continue
+            seen.add(x.id); st.extend(x.args)
+            if x.op == 'fdiv' and x.args[1].op != 'const' and core(x.args[0]).op != 'const': quots[x.id] = x
+        path = ', '.join('%s=%s' % (T.show(c, 2)[:40], v) for c, v in lits[:3]) or 'the only path'
+        for q in quots.values():
+            n_, d_ = core(q.args[0]), core(q.args[1])
+            if n_ is d_: continue
+            def mentions(c):
+                st_ = [c]; sn = set()
+                while st_:
+                    y = st_.pop()
+                    if y.id in sn: continue
+                    sn.add(y.id)
+                    if y is n_ or y is d_: return True
+                    st_.extend(y.args)
+                return False
+            dep = [(c, v) for c, v in lits if mentions(c)]
+            nonneg = [z.id for z in (n_, d_) if z.op == 'absi' or (z.op == 'call' and 'fabs' in str(z.attr))]
+            def on_path(env):
+                # the point has to lie on this path: a magnitude is not negative, and every branch condition of the path that reads
+                # N or D (|x| < |y| on the path that divides x by y) must be decided true by the two values alone
+                if any(env[i] < 0 for i in nonneg): return False
+                memo = {}
+                return all(_ev3(c, env, memo) is v for c, v in dep)
+            for dv, nv in SAFE:
+                if not on_path({d_.id: dv, n_.id: nv}): continue
+                npts += 1
+                if _ev3(tcr, {d_.id: dv, n_.id: nv}, {}) is True:
+                    return ('on the path %s the result contains the quotient N/D = %s; with D = %g and N = %g (quotient %g, nowhere near overflow) the throw condition %s is true: well-conditioned input is rejected although the unchecked form returns an ordinary value'
+                            % (path, T.show(q, 2)[:80], dv, nv, nv / dv, T.show(tcr, 3)[:200]), npts)
+            if d_.id in magn:
+                for dv, nv in OVER:
+                    if not on_path({d_.id: dv, n_.id: nv}): continue
+                    npts += 1
+                    if _ev3(tcr, {d_.id: dv, n_.id: nv}, {}) is False:
+                        return ('on the path %s the result contains the quotient N/D = %s; with D = %g and N = %g the quotient overflows, yet the throw condition %s is false: the checked form returns an infinite value instead of throwing'
+                                % (path, T.show(q, 2)[:80], dv, nv, T.show(tcr, 3)[:200]), npts)
+    return None, npts
+
+def check_pair(rep, R, p, t, rn=lambda k: 'R07.' + k):
+    """all twin rules for one checked / unchecked pair"""
+    oid = p['id']
+    SC, SU = R.get(p['C']), R.get(p['U'])
+    if SC is None or SU is None:
+        rep.ob(oid, rn('same'), UNDECIDED, R.err.get(p['C']) or R.err.get(p['U']) or 'not analysed'); return
+    where = fn_where(SC.fn)
+    try:
+        JC = joint(SC, p['outs']); JU = joint(SU, p['outs'])
+        ok, det, n = twin_same(JC, JU)
+    except (vg.Unsupported, OverflowError) as e:
+        rep.ob(oid, rn('same'), UNDECIDED, str(e), where); return
+    if n == 0:
+        rep.ob(oid, rn('same'), VIOLATED, 'the checked form has no returning path', where)
+    else:
+        rep.ob(oid, rn('same'), HOLDS if ok else VIOLATED, det if not ok else '%d returning leaves compared' % n, where,
+               sample=None if not ok else '%s: %d returning leaves identical; throw region = %s' % (oid, n, T.show(SC.throw_cond(), 3)[:300]))
+    # the unchecked form must not throw at all
+    if SU.throw_types():
+        rep.ob(oid + '#nothrow', rn('same'), VIOLATED, 'the unchecked form can throw %s' % SU.throw_types(), fn_where(SU.fn))
+    # type
+    tt = SC.throw_types()
+    if not tt:
+        rep.ob(oid + '#type', rn('type'), VIOLATED, 'the checked form never throws', where)
+    elif tt != [p['exc']]:
+        rep.ob(oid + '#type', rn('type'), VIOLATED, 'throws %s, documented type is %s' % (tt, p['exc']), where)
+    else:
+        rep.ob(oid + '#type', rn('type'), HOLDS, '', where, nontrivial=False)
+    pred = sentinel_pred(p.get('sentinel'), t)
+    if pred is not None:
+        try:
+            fail_region = region(JU, pred)
+            tc = SC.throw_cond()
+        except vg.Unsupported as e:
+            rep.ob(oid + '#iff', rn('iff'), UNDECIDED, str(e), where); return
+        if fail_region is tc:
+            rep.ob(oid + '#iff', rn('iff'), HOLDS, '', where)
+        else:
+            rep.ob(oid + '#iff', rn('iff'), VIOLATED, 'checked form throws on %s but the unchecked form reports failure on %s' % (T.show(tc, 4)[:400], T.show(fail_region, 4)[:400]), where)
+    if pred is None and ok:
+        # no failure sentinel: the checked form throws where a quotient of the result would overflow.  Every quotient N/D of
+        # a returning leaf must be covered by its own guard  |D| < 1 && |N| > max*|D|  in the throw condition.
+        try:
+            tc = SC.throw_cond()
+            def abs_arg(n):
+                if n.op == 'absi': return n.args[0]
+                if n.op == 'call' and 'fabs' in str(n.attr): return n.args[0]
+                return None
+            small = set(); over = set(); seen_ = set(); st_ = [tc]
+            while st_:
+                x = st_.pop()
+                if x.id in seen_: continue
+                seen_.add(x.id); st_.extend(x.args)
+                if x.op == 'fcmp' and x.attr in ('olt', 'ole'):
+                    a_, b_ = x.args
+                    if b_.op == 'const' and T.const_value(b_) == 1 and abs_arg(a_) is not None: small.add(abs_arg(a_).id)
+                    if a_.op == 'fmul' and any(z.op == 'const' and not isinstance(T.const_value(z), str) and abs(T.const_value(z)) > 10 ** 30 for z in a_.args) and (abs_arg(b_) is not None or b_.op == 'const'):
+                        dd = [abs_arg(z) for z in a_.args if abs_arg(z) is not None]
+                        if dd: over.add(((abs_arg(b_) if b_.op != 'const' else b_).id, dd[0].id))      # a constant numerator is its own magnitude
+            # the two-sided spelling of the same guard:  N <= -(max*|D|)  ||  N >= max*|D|
+            def maxmul(n):
+                neg = False
+                if n.op == 'fneg': n = n.args[0]; neg = True
+                if n.op == 'fmul' and any(z.op == 'const' and not isinstance(T.const_value(z), str) and abs(T.const_value(z)) > 10 ** 30 for z in n.args):
+                    if any(z.op == 'const' and T.const_value(z) < 0 for z in n.args if z.op == 'const'): neg = not neg
+                    dd = [abs_arg(z) for z in n.args if abs_arg(z) is not None]
+                    if dd: return dd[0], neg
+                return None
+            lows = set(); ups = set(); seen_ = set(); st_ = [tc]
+            while st_:
+                x = st_.pop()
+                if x.id in seen_: continue
+                seen_.add(x.id); st_.extend(x.args)
+                if x.op == 'fcmp' and x.attr in ('olt', 'ole'):
+                    a_, b_ = x.args
+                    mb = maxmul(b_); ma = maxmul(a_)
+                    if mb is not None and mb[1] and abs_arg(a_) is None and a_.op != 'const': lows.add((a_.id, mb[0].id))       # N <= -(max |D|)
+                    if ma is not None and not ma[1] and abs_arg(b_) is None and b_.op != 'const': ups.add((b_.id, ma[0].id))    # max |D| <= N
+            over |= (lows & ups)
+            quot = {}
+            zero_tested = set()
+            from .common import lift_all
+            JL = lift_all(JC, [400000])
+            for c_ in P_all_conds(JL) | P_all_conds(tc):
+                if c_.op in ('fcmp', 'icmp') and c_.attr in ('oeq', 'eq', 'une', 'ne') and any(z.op == 'const' and T.const_value(z) == 0 for z in c_.args):
+                    for z in c_.args:
+                        if z.op != 'const': zero_tested.add(z.id)
+            for lits_, leaf in T.leaves(JL, 100000):
+                if leaf.op != 'tuple': continue
+                st_ = list(leaf.args); seen2 = set()
+                while st_:
+                    x = st_.pop()
+                    if x.id in seen2: continue
+                    seen2.add(x.id); st_.extend(x.args)
+                    if x.op == 'fdiv' and x.args[1].op != 'const': quot[x.id] = x
+            def core(n):
+                while n.op in ('fneg', 'sitofp', 'fpext', 'fptrunc'): n = n.args[0]
+                return n
+            def guarded(q):
+                n_, d_ = core(q.args[0]), core(q.args[1])
+                if d_.id in small and (n_.id, d_.id) in over: return True          # its own overflow guard
+                if d_.id in small:
+                    # the guarded magnitude may be written differently (|-2*f*n| for the numerator n*(f*2)): equal up to sign as polynomials
+                    from engine import poly as P_
+                    cx = P_.Ctx()
+                    try:
+                        rn = cx.rat(n_)
+                        for (ng, dg) in over:
+                            if dg != d_.id: continue
+                            rg = cx.rat(T._nodes[ng])
+                            if cx.requal(rg, rn) or cx.requal(rg, (P_.pneg(rn[0]), rn[1])): return True
+                    except P_.NotPoly:
+                        pass
+                if d_.id in zero_tested or q.args[1].id in zero_tested: return True  # a divisor that is only tested against zero (no overflow guard is claimed for it)
+                return False
+            # ... and conversely a guard belongs to a quotient of the path it sits on: restricted to the path of a returning
+            # leaf, the throw condition may only mention divisors that this leaf divides by (a guard hoisted above a branch
+            # throws for inputs whose result - on the other branch - has no such quotient)
+            stray = None
+            for lits_, leaf in T.leaves(lift_all(JU, [400000]), 100000):     # the unchecked twin's paths carry the real branches only
+                if leaf.op != 'tuple': continue
+                tcr = T.resolve(tc, dict(lits_))
+                if tcr is T.FALSE: continue
+                dens_here = set()
+                st_ = list(leaf.args); seen2 = set()
+                while st_:
+                    x = st_.pop()
+                    if x.id in seen2: continue
+                    seen2.add(x.id); st_.extend(x.args)
+                    if x.op == 'fdiv': dens_here.add(core(x.args[1]).id)
+                mentioned = set(); st_ = [tcr]; seen2 = set()
+                while st_:
+                    x = st_.pop()
+                    if x.id in seen2: continue
+                    seen2.add(x.id); st_.extend(x.args)
+                    if x.op == 'fcmp' and x.attr in ('olt', 'ole') and x.args[1].op == 'const' and T.const_value(x.args[1]) == 1 and abs_arg(x.args[0]) is not None:
+                        mentioned.add(core(abs_arg(x.args[0])).id)
+                extra_ = [d_ for d_ in mentioned if d_ not in dens_here]
+                if extra_ and any(lits_):
+                    stray = 'on the path %s the checked form can still throw because of |%s| < 1 ..., but the result on that path does not divide by it: well-conditioned input of that kind is rejected although the unchecked form returns an ordinary value' % (', '.join('%s=%s' % (T.show(c, 2)[:40], v) for c, v in lits_[:3]), T.show(T._nodes[extra_[0]], 2)[:60])
+                    break
+            unguarded = [q for q in quot.values() if core(q.args[1]).id in small and not guarded(q)]
+            if stray and not unguarded:
+                rep.ob(oid + '#guard', rn('iff'), VIOLATED, stray, where)
+                return
+            if quot and (over or unguarded):
+                rep.ob(oid + '#guard', rn('iff'), VIOLATED if unguarded else HOLDS,
+                       'the quotient %s of the result has no guard |D| < 1 && |N| > max*|D| of its own in the throw condition %s' % (T.show(unguarded[0], 3)[:120], T.show(tc, 3)[:200]) if unguarded else
+                       '%d quotients, each with its own overflow guard' % len(quot), where)
+        except (vg.Unsupported, OverflowError) as e:
+            rep.ob(oid + '#guard', rn('iff'), UNDECIDED, str(e)[:300], where)
+    if pred is None and ok:
+        # the guard as a predicate of the two magnitudes it protects: on the path of every quotient N/D of the result, the throw
+        # condition is evaluated (three-valued; anything that reads other inputs is unknown) at points of the (|D|, |N|) plane.
+        # Well-conditioned points (|N/D| far below max) must not be decided "throw"; points whose quotient overflows must not be
+        # decided "return" when the divisor carries a magnitude guard at all.
+        try:
+            msg, npts = guard_points(SC.throw_cond(), JU, t)
+            if npts:
+                rep.ob(oid + '#points', rn('iff'), VIOLATED if msg else HOLDS, msg or '%d (|D|, |N|) points evaluated against the throw condition' % npts, where)
+        except (vg.Unsupported, OverflowError) as e:
+            rep.ob(oid + '#points', rn('iff'), UNDECIDED, str(e)[:300], where)
+    if p.get('flag'):
+        SZ = R.get(p['flag'])
+        if SZ is None:
+            rep.ob(oid + '#flag', rn('flag'), UNDECIDED, R.err.get(p['flag'], '')); return
+        JZ = joint(SZ, p['outs'])
+        rep.ob(oid + '#flag', rn('flag'), HOLDS if JZ is JU else VIOLATED, '' if JZ is JU else 'f(false) and f() have different value graphs', fn_where(SZ.fn))
+
 def main(rep, ws, tier):
     types = 'f' if tier == 'quick' else 'fd'
     gens = [gen(t) for t in types]
@@ -156,132 +438,7 @@ def main(rep, ws, tier):
         R = an[tu]
         for p in pairs:
             npairs += 1
-            oid = p['id']
-            SC, SU = R.get(p['C']), R.get(p['U'])
-            if SC is None or SU is None:
-                rep.ob(oid, 'R07.same', UNDECIDED, R.err.get(p['C']) or R.err.get(p['U']) or 'not analysed'); continue
-            where = fn_where(SC.fn)
-            try:
-                JC = joint(SC, p['outs']); JU = joint(SU, p['outs'])
-                ok, det, n = twin_same(JC, JU)
-            except (vg.Unsupported, OverflowError) as e:
-                rep.ob(oid, 'R07.same', UNDECIDED, str(e), where); continue
-            if n == 0:
-                rep.ob(oid, 'R07.same', VIOLATED, 'the checked form has no returning path', where)
-            else:
-                rep.ob(oid, 'R07.same', HOLDS if ok else VIOLATED, det if not ok else '%d returning leaves compared' % n, where,
-                       sample=None if not ok else '%s: %d returning leaves identical; throw region = %s' % (oid, n, T.show(SC.throw_cond(), 3)[:300]))
-            # the unchecked form must not throw at all
-            if SU.throw_types():
-                rep.ob(oid + '#nothrow', 'R07.same', VIOLATED, 'the unchecked form can throw %s' % SU.throw_types(), fn_where(SU.fn))
-            # type
-            tt = SC.throw_types()
-            if not tt:
-                rep.ob(oid + '#type', 'R07.type', VIOLATED, 'the checked form never throws', where)
-            elif tt != [p['exc']]:
-                rep.ob(oid + '#type', 'R07.type', VIOLATED, 'throws %s, documented type is %s' % (tt, p['exc']), where)
-            else:
-                rep.ob(oid + '#type', 'R07.type', HOLDS, '', where, nontrivial=False)
-            pred = sentinel_pred(p.get('sentinel'), t)
-            if pred is not None:
-                try:
-                    fail_region = region(JU, pred)
-                    tc = SC.throw_cond()
-                except vg.Unsupported as e:
-                    rep.ob(oid + '#iff', 'R07.iff', UNDECIDED, str(e), where); continue
-                if fail_region is tc:
-                    rep.ob(oid + '#iff', 'R07.iff', HOLDS, '', where)
-                else:
-                    rep.ob(oid + '#iff', 'R07.iff', VIOLATED, 'checked form throws on %s but the unchecked form reports failure on %s' % (T.show(tc, 4)[:400], T.show(fail_region, 4)[:400]), where)
-            if pred is None and ok:
-                # no failure sentinel: the checked form throws where a quotient of the result would overflow.  Every quotient N/D of
-                # a returning leaf must be covered by its own guard  |D| < 1 && |N| > max*|D|  in the throw condition.
-                try:
-                    tc = SC.throw_cond()
-                    def abs_arg(n):
-                        if n.op == 'absi': return n.args[0]
-                        if n.op == 'call' and 'fabs' in str(n.attr): return n.args[0]
-                        return None
-                    small = set(); over = set(); seen_ = set(); st_ = [tc]
-                    while st_:
-                        x = st_.pop()
-                        if x.id in seen_: continue
-                        seen_.add(x.id); st_.extend(x.args)
-                        if x.op == 'fcmp' and x.attr in ('olt', 'ole'):
-                            a_, b_ = x.args
-                            if b_.op == 'const' and T.const_value(b_) == 1 and abs_arg(a_) is not None: small.add(abs_arg(a_).id)
-                            if a_.op == 'fmul' and any(z.op == 'const' and not isinstance(T.const_value(z), str) and abs(T.const_value(z)) > 10 ** 30 for z in a_.args) and (abs_arg(b_) is not None or b_.op == 'const'):
-                                dd = [abs_arg(z) for z in a_.args if abs_arg(z) is not None]
-                                if dd: over.add(((abs_arg(b_) if b_.op != 'const' else b_).id, dd[0].id))      # a constant numerator is its own magnitude
-                    # the two-sided spelling of the same guard:  N <= -(max*|D|)  ||  N >= max*|D|
-                    def maxmul(n):
-                        neg = False
-                        if n.op == 'fneg': n = n.args[0]; neg = True
-                        if n.op == 'fmul' and any(z.op == 'const' and not isinstance(T.const_value(z), str) and abs(T.const_value(z)) > 10 ** 30 for z in n.args):
-                            if any(z.op == 'const' and T.const_value(z) < 0 for z in n.args if z.op == 'const'): neg = not neg
-                            dd = [abs_arg(z) for z in n.args if abs_arg(z) is not None]
-                            if dd: return dd[0], neg
-                        return None
-                    lows = set(); ups = set(); seen_ = set(); st_ = [tc]
-                    while st_:
-                        x = st_.pop()
-                        if x.id in seen_: continue
-                        seen_.add(x.id); st_.extend(x.args)
-                        if x.op == 'fcmp' and x.attr in ('olt', 'ole'):
-                            a_, b_ = x.args
-                            mb = maxmul(b_); ma = maxmul(a_)
-                            if mb is not None and mb[1] and abs_arg(a_) is None and a_.op != 'const': lows.add((a_.id, mb[0].id))       # N <= -(max |D|)
-                            if ma is not None and not ma[1] and abs_arg(b_) is None and b_.op != 'const': ups.add((b_.id, ma[0].id))    # max |D| <= N
-                    over |= (lows & ups)
-                    quot = {}
-                    zero_tested = set()
-                    from .common import lift_all
-                    JL = lift_all(JC, [400000])
-                    for c_ in P_all_conds(JL) | P_all_conds(tc):
-                        if c_.op in ('fcmp', 'icmp') and c_.attr in ('oeq', 'eq', 'une', 'ne') and any(z.op == 'const' and T.const_value(z) == 0 for z in c_.args):
-                            for z in c_.args:
-                                if z.op != 'const': zero_tested.add(z.id)
-                    for lits_, leaf in T.leaves(JL, 100000):
-                        if leaf.op != 'tuple': continue
-                        st_ = list(leaf.args); seen2 = set()
-                        while st_:
-                            x = st_.pop()
-                            if x.id in seen2: continue
-                            seen2.add(x.id); st_.extend(x.args)
-                            if x.op == 'fdiv' and x.args[1].op != 'const': quot[x.id] = x
-                    def core(n):
-                        while n.op in ('fneg', 'sitofp', 'fpext', 'fptrunc'): n = n.args[0]
-                        return n
-                    def guarded(q):
-                        n_, d_ = core(q.args[0]), core(q.args[1])
-                        if d_.id in small and (n_.id, d_.id) in over: return True          # its own overflow guard
-                        if d_.id in small:
-                            # the guarded magnitude may be written differently (|-2*f*n| for the numerator n*(f*2)): equal up to sign as polynomials
-                            from engine import poly as P_
-                            cx = P_.Ctx()
-                            try:
-                                rn = cx.rat(n_)
-                                for (ng, dg) in over:
-                                    if dg != d_.id: continue
-                                    rg = cx.rat(T._nodes[ng])
-                                    if cx.requal(rg, rn) or cx.requal(rg, (P_.pneg(rn[0]), rn[1])): return True
-                            except P_.NotPoly:
-                                pass
-                        if d_.id in zero_tested or q.args[1].id in zero_tested: return True  # a divisor that is only tested against zero (no overflow guard is claimed for it)
-                        return False
-                    unguarded = [q for q in quot.values() if core(q.args[1]).id in small and not guarded(q)]
-                    if quot and (over or unguarded):
-                        rep.ob(oid + '#guard', 'R07.iff', VIOLATED if unguarded else HOLDS,
-                               'the quotient %s of the result has no guard |D| < 1 && |N| > max*|D| of its own in the throw condition %s' % (T.show(unguarded[0], 3)[:120], T.show(tc, 3)[:200]) if unguarded else
-                               '%d quotients, each with its own overflow guard' % len(quot), where)
-                except (vg.Unsupported, OverflowError) as e:
-                    rep.ob(oid + '#guard', 'R07.iff', UNDECIDED, str(e)[:300], where)
-            if p.get('flag'):
-                SZ = R.get(p['flag'])
-                if SZ is None:
-                    rep.ob(oid + '#flag', 'R07.flag', UNDECIDED, R.err.get(p['flag'], '')); continue
-                JZ = joint(SZ, p['outs'])
-                rep.ob(oid + '#flag', 'R07.flag', HOLDS if JZ is JU else VIOLATED, '' if JZ is JU else 'f(false) and f() have different value graphs', fn_where(SZ.fn))
+            check_pair(rep, R, p, t)
     narrowing(rep, ws, [gen('d')[0]], 'R07.prec')
     rep.floor('checked/unchecked twins', npairs, 54 * len(types))
     rep.assumptions += ['IEEE-exact term equality', 'a wrapper\'s reference parameters do not alias']
